@@ -71,4 +71,45 @@ example : validate { defaults with
     lease := 0xFFFFFFFFFFFFFFFF, rtt := 0xFFFFFFFFFFFFFFFF,
     emin := 0xFFFFFFFFFFFFFFFE, emax := 0xFFFFFFFFFFFFFFFF } = some "lease_vs_election" := by decide
 
+/-! ## corollaries added in the continuation session (DESIGN.md 12.10) -/
+/-- Every election timeout a node can draw (`rand in [emin, emax)`) is longer than the lease window plus the
+    round-trip margin: the form in which C12's lease argument consumes C34. -/
+theorem lease_lt_every_timeout (c : Cfg) (h : validate c = none) (t : Nat)
+    (ht : c.emin.toNat ≤ t) : c.lease.toNat + c.rtt.toNat / 2 < t :=
+  Nat.lt_of_lt_of_le (validate_sound c h).1 ht
+
+/-- The range election timeouts are drawn from is not empty, and no arithmetic on it wraps. -/
+theorem election_range_nonempty (c : Cfg) (h : validate c = none) :
+    ∃ t, c.emin.toNat ≤ t ∧ t < c.emax.toNat ∧ t < 2 ^ 64 :=
+  ⟨c.emin.toNat, Nat.le_refl _, (validate_sound c h).2.1, c.emin.toNat_lt⟩
+
+/-- Converse direction for the two timing clauses: a config violating either is rejected (validation is not
+    merely sound but rejects exactly on these clauses — no unsafe config slips through a short-circuit). -/
+theorem unsafe_timing_rejected (c : Cfg)
+    (hbad : c.emin.toNat ≤ c.lease.toNat + c.rtt.toNat / 2 ∨ c.emax.toNat ≤ c.emin.toNat) :
+    validate c ≠ none := by
+  intro h
+  have hs := validate_sound c h
+  rcases hbad with hb | hb
+  · have := hs.1; omega
+  · have := hs.2.1; omega
+
+/-- No false rejection on the lease clause: the validator answers `lease_vs_election` only when the lease window plus
+    margin really reaches the minimum election timeout (in ℕ: saturation cannot cause a spurious rejection either). -/
+theorem lease_rejection_is_genuine (c : Cfg) (h : validate c = some "lease_vs_election") :
+    c.emin.toNat ≤ c.lease.toNat + c.rtt.toNat / 2 := by
+  unfold validate at h
+  obtain ⟨chk, hf, htag⟩ := Option.map_eq_some_iff.mp h
+  have hmem := List.mem_of_find?_eq_some hf
+  have htrue := List.find?_some hf
+  have hsat := satAdd_toNat c.lease (c.rtt / 2)
+  have hdiv : (c.rtt / 2).toNat = c.rtt.toNat / 2 := by simp [UInt64.toNat_div]
+  simp only [checks, List.mem_cons, List.not_mem_nil, or_false] at hmem
+  rcases hmem with h | h | h | h | h | h | h | h | h | h | h | h | h | h | h | h | h | h | h | h | h | h | h | h | h | h <;>
+    subst h <;> simp at htag
+  simp only [ge_iff_le, decide_eq_true_eq, UInt64.le_iff_toNat_le] at htrue
+  rw [hsat, hdiv] at htrue
+  have := c.emin.toNat_lt
+  omega
+
 end DEngine.C34
